@@ -18,8 +18,8 @@ CONFIG = {
                  "interpreted from regenerated statement lists: IsBoardValidUser, LoadGeneralArticles, LoadBottomArticles, FindArticleStartIdx, ReadPost, ReadPostTemplate, loadGeneralBoardStat, loadAutoCompleteBoardStat, loadBoardStat, loadHotBoardStat, loadClassBoardStat"],
     "assumptions": [
         "the relation facts (uid in the moderator cache, friend listed, user id named in the moderator string) are inputs: cache.IsHiddenBoardFriend / is_uBM / buildBMCache themselves are not modelled (friend-list expiry and reload are exercised by the fixture only)",
-        "O2 (outside the quantifier, recorded as a NOTE on every run): entry points take the board id for the permission test and the board NAME for the path and never compare them",
-        "ptt.LoadClassBoards panics on a class with an ordinary or forbidden child (nil header in the loop post-statement): recorded as a NOTE, the function is not in the property's observation list; the class stat function is covered through LoadFullClassBoards",
+        "O2: package ptt's entry points take the board id for the permission test and the board NAME for the path and never compare them (recorded as a NOTE on every run); the bbs boundary refuses an inconsistent pair (BBoardID.ToRaw, fact regenerated as Gen.bboardIDChecksName, key board:name-mismatch)",
+        "ptt.LoadClassBoards is driven on the class root of the fixture (children: two ordinary boards and the varied group board); its sibling walk itself is not modelled, only the per-child stat function",
         "keyword / title filters of the name listings are off in the driven calls (modelled as the fact kwMiss = false)",
     ],
 }
